@@ -1,7 +1,7 @@
 //! C16: names from a small grammar through the real plain / sharded caches inside a sentinel tree.
 //! Either InvalidInput with an unchanged tree, or every effect confined to the one expected file
 //! directly inside the cache directory (or one of the shard directories).
-use kismet_cache::{plain, sharded, Key};
+use kismet_cache::{plain, sharded, CacheBuilder, Key};
 use std::collections::BTreeMap;
 use std::io::Write;
 use std::path::{Path, PathBuf};
@@ -40,9 +40,12 @@ pub fn run(_args: &[String]) {
     .chain(std::iter::once("long".repeat(40)))
     .collect();
     let mut evals = 0u64;
-    for front in ["plain", "sharded"] {
+    for front in ["plain", "sharded", "stacked-plain", "stacked-sharded"] {
         for name in &names {
-            for op in ["set", "put", "get", "touch"] {
+            for op in ["set", "put", "get", "touch", "ensure"] {
+                if op == "ensure" && !front.starts_with("stacked") {
+                    continue;
+                }
                 evals += 1;
                 let root = tempfile::tempdir().unwrap();
                 let cache_dir = root.path().join("cache");
@@ -59,6 +62,22 @@ pub fn run(_args: &[String]) {
                         "put" => c.put(name, &src),
                         "get" => c.get(name).map(|_| ()),
                         _ => c.touch(name).map(|_| ()),
+                    }
+                } else if front.starts_with("stacked") {
+                    // a stacked cache with a write side only (a read-only side would validate the name again)
+                    let mut b = CacheBuilder::new();
+                    if front == "stacked-plain" {
+                        b.plain_writer(&cache_dir, 100);
+                    } else {
+                        b.sharded_writer(&cache_dir, 4, 100);
+                    }
+                    let c = b.build();
+                    match op {
+                        "set" => c.set(key, &src),
+                        "put" => c.put(key, &src),
+                        "get" => c.get(key).map(|_| ()),
+                        "ensure" => c.ensure(key, |dst| dst.write_all(b"populated")).map(|_| ()),
+                        _ => c.touch(key).map(|_| ()),
                     }
                 } else {
                     let c = sharded::Cache::new(cache_dir.clone(), 4, 100);
